@@ -1,5 +1,5 @@
 """C15 — the second-generation front end is total and memory-safe on any bytes."""
-import random, collections, itertools, os, re
+import random, collections, itertools, os, re, shutil
 from .. import common as C
 from .. import gen_mut as GM, gen_prog as GP
 from . import c14
@@ -155,12 +155,47 @@ def run(tier):
             k_ = c14.known_class(src)
             key = "valid-rejected:" + (k_ if (k_ and f[0] == "lexerr") else "return-as-plain-label" if re.search(r"\breturn:\s*\n\s*\}", src) is None and re.search(r"goto return|return:", src) and f[0] == "parseerr" else name)
             ck.violation(key, "the repository's valid sample %s is rejected by the second generation: %s" % (name, f[:4]), src)
+    # Miri: the same front end interpreted with checks for uninitialised reads, out-of-bounds accesses and
+    # invalid values inside the unsafe buffer code (thorough tier; PV_MIRI=1 forces it in the quick tier)
+    miri = None
+    if tier == "thorough" or os.environ.get("PV_MIRI") == "1":
+        mrng = random.Random(ck.seed + 15)
+        sel = [c for c in cases if len(c[1]) <= 1200 and c[2] not in ("tokens",)]
+        mrng.shuffle(sel)
+        sel = sel[: (60 if tier == "quick" else 400)] + [("dense", dense(mrng, k, 120).encode(), "dense") for k in range(7)]
+        mdir = os.path.join(ck.work, "miri"); os.makedirs(mdir, exist_ok=True)
+        shards = [sel[i::8] for i in range(8)]
+        import subprocess
+        procs = []
+        for k, sh_ in enumerate(shards):
+            path = os.path.join(mdir, "cases%d.txt" % k)
+            open(path, "w").write("".join(c[1].hex() + "\n" for c in sh_))
+            env = C.env(); env["MIRIFLAGS"] = "-Zmiri-disable-isolation"; env["CARGO_TARGET_DIR"] = os.path.join(C.CACHE, "miri-target"); env.pop("RUSTFLAGS", None)
+            lockp = os.path.join(C.VERIF, "harness-miri", "Cargo.lock")
+            if not os.path.exists(lockp): shutil.copy(os.path.join(C.REPO, "Cargo.lock"), lockp)
+            procs.append((k, sh_, subprocess.Popen(["cargo", "+nightly", "miri", "run", "--offline", "-q", "--", path], cwd=os.path.join(C.VERIF, "harness-miri"), env=env, stdout=subprocess.PIPE, stderr=subprocess.PIPE)))
+            if k == 0: procs[0][2].wait(); procs[0] = (0, sh_, procs[0][2])      # the first one builds, the others reuse it
+        nm_ok = 0
+        for k, sh_, p in procs:
+            try: out, err = p.communicate(timeout=6000)
+            except subprocess.TimeoutExpired:
+                p.kill(); out, err = p.communicate()
+            lines = out.decode(errors="replace").splitlines()
+            nm_ok += len(lines)
+            if p.returncode != 0 or len(lines) != len(sh_):
+                culprit = sh_[len(lines)][1] if len(lines) < len(sh_) else b""
+                et = err.decode(errors="replace")
+                key = "miri:undefined-behaviour" if "Undefined Behavior" in et else "miri:" + ("stack-overflow" if "stack" in et.lower() and "overflow" in et.lower() else "failed")
+                ck.violation(key, "Miri stopped on an input of the second-generation front end: " + (re.search(r"error: (.*)", et).group(1)[:200] if re.search(r"error: (.*)", et) else "exit %s" % p.returncode),
+                             "input (python repr): %r\n--- miri\n%s" % (culprit[:3000], et[-3000:]))
+        miri = dict(inputs=len(sel), completed=nm_ok)
+        ck.log("miri: %d inputs interpreted, %d completed" % (len(sel), nm_ok))
     ck.log("crash stream (debug + release): %d inputs, %d node counts compared with the model, %s; kinds %s; max nodes/token %.2f on %s" % (len(cases), ncmp, dict(stats.most_common(8)), dict(kinds), maxratio[0], maxratio[1]))
     if not proof_ok:
         ck.violation("tie-broken:proof", "Props/C15.v no longer checks", getattr(ck, "proof_output", "")[-2000:])
     ck.coverage.update(
         evaluations=2 * len(cases), distinct_nontrivial=len({c[1] for c in cases}), exhaustive_part=ntok_exh,
         rule="every input through lex -> token dump -> parse -> errors -> header -> tree and header dumps (staged as main.rs does: no parse after lexical errors, no header or dumps after syntax errors) in isolated workers, in a debug build (overflow checks, debug assertions) AND a release build, results compared: mutated corpus, generated programs with faults, token soup, CRLF variants, random bytes and random bytes over a lexically dense alphabet (NUL, 0xFF, multi-byte), generated valid programs and programs full of string escapes and multi-byte characters (must be accepted), inputs of extreme node density (x+x+..., &&&&, nested parentheses, long member/index chains, argument / array / structure lists), ALL token sequences up to length %d over %d tokens, inputs of 64-256 KiB; checked: no panic / signal / timeout, nodes <= %d + %d * tokens (the regenerated capacity), tokens <= bytes + 2, lexical verdict = 'the extracted lexer model finds an Error token', node / declaration / error counts = Model/DeltaNodes.v run on the token kinds the real lexer produced" % (L, len(TOKENS), ctx, factor),
-        outcomes=dict(stats), input_kinds=dict(kinds), problems=bad, node_model_compared=ncmp, max_nodes_per_token=round(maxratio[0], 3), node_capacity="%d + %d * tokens" % (ctx, factor),
+        outcomes=dict(stats), input_kinds=dict(kinds), problems=bad, node_model_compared=ncmp, miri=miri, max_nodes_per_token=round(maxratio[0], 3), node_capacity="%d + %d * tokens" % (ctx, factor),
         samples=[dict(kind=cases[0][2], input=repr(cases[0][1][:200]), outcome=impl.get(cases[0][0], ["?"])[:5])])
     return ck.finish()
